@@ -155,6 +155,12 @@ def histories(rng, tier):
                         t[j] = 'val=%d' % rng.choice(big)
                 h[i] = ' '.join(t)
         names = ','.join(c.name for c in cfgs)
+        if rng.random() < (0.45 if 'divide' in name else 0.1):
+            # the SAME map object more than once in the list (first map again later; a later map twice): the fold
+            # is over list POSITIONS, not over distinct objects (seeded change C06h)
+            lst = [c.name for c in cfgs]
+            lst.insert(rng.randint(1, len(lst)), rng.choice([lst[0], lst[0], lst[-1]]))
+            names = ','.join(lst)
         if name.startswith('ufunc_'):
             uf = rng.choice(['add', 'multiply', 'fmax', 'fmin', 'subtract'])
             fv = c0.val(rng) if c0.kind == 'plain' else '0'
